@@ -754,7 +754,15 @@ int main()
 {
     std::string line;
     while (std::getline(std::cin, line)) {
-        std::string r = verif::run_forked([&]() { return run_line(line); }, 60);
+        // a case never produces an empty line: an empty result means that fork() itself failed
+        // (process table exhausted on a loaded machine) -- retry instead of reporting it
+        std::string r;
+        for (int attempt = 0; attempt < 6; attempt++) {
+            r = verif::run_forked([&]() { return run_line(line); }, 60);
+            if (!r.empty())
+                break;
+            usleep(300000);
+        }
         std::cout << r << "\n";
     }
     return 0;
